@@ -1,4 +1,5 @@
 import MuduoVerif.Proofs.PollerPerm
+import MuduoVerif.Proofs.PollerSkelTie
 /-!
 # C09 — the loop calls exactly the ready, subscribed channels; same under epoll and poll
 
@@ -263,6 +264,36 @@ theorem idle_blocks_watch (be : Backend) (ins : List In) (fd : Int) (mask : Nat)
     mask ≠ 0 ∧ ∃ c, fd = fdOf c ∧ ((reach be ins).chans c).added = true ∧ ((reach be ins).chans c).events = mask := by
   obtain ⟨c, h1, h2, h3, h4⟩ := (refine_full_holds be ins fd mask).1 hw
   exact ⟨h4, c, h1, h2, h3⟩
+
+/-! ## T1, statement order -/
+
+/-- T1, statement order: in every function of `EPollPoller.cc` (`poll`, `fillActiveChannels`, `updateChannel`,
+`removeChannel`, `update`), `PollPoller.cc` (`poll`, `fillActiveChannels`, `updateChannel`, `removeChannel`), `Channel.cc`
+(`update`, `remove`, `handleEvent`, `handleEventWithGuard`) and `EventLoop.cc` (one iteration of `loop`, `updateChannel`,
+`removeChannel`, `hasChannel`) the source performs the same significant actions - system calls, assertions, `set_index` /
+`set_revents` / `handleEvent` through a `Channel*`, the operations of `channels_` and of the arrays, the four callbacks,
+calls through `poller_` / `loop_` and inside the class, `LOG_SYSERR` / `LOG_SYSFATAL`, stores, `return` - in the same order
+and under the same nesting of the generated guards and loops as `Model/Poller.lean` (`Model/PollerSkelDecl.lean`);
+re-extracted from /repo on every run (`Generated/PollerSkel.lean`), proved in `Proofs/PollerSkelTie.lean` -/
+theorem statement_order_tied :
+    Gen.PollerSkel.epollPoll = PollerSkel.Decl.epollPoll ∧
+    Gen.PollerSkel.epollFillActiveChannels = PollerSkel.Decl.epollFillActiveChannels ∧
+    Gen.PollerSkel.epollUpdateChannel = PollerSkel.Decl.epollUpdateChannel ∧
+    Gen.PollerSkel.epollRemoveChannel = PollerSkel.Decl.epollRemoveChannel ∧
+    Gen.PollerSkel.epollUpdate = PollerSkel.Decl.epollUpdate ∧
+    Gen.PollerSkel.pollPoll = PollerSkel.Decl.pollPoll ∧
+    Gen.PollerSkel.pollFillActiveChannels = PollerSkel.Decl.pollFillActiveChannels ∧
+    Gen.PollerSkel.pollUpdateChannel = PollerSkel.Decl.pollUpdateChannel ∧
+    Gen.PollerSkel.pollRemoveChannel = PollerSkel.Decl.pollRemoveChannel ∧
+    Gen.PollerSkel.channelUpdate = PollerSkel.Decl.channelUpdate ∧
+    Gen.PollerSkel.channelRemove = PollerSkel.Decl.channelRemove ∧
+    Gen.PollerSkel.channelHandleEvent = PollerSkel.Decl.channelHandleEvent ∧
+    Gen.PollerSkel.channelHandleEventWithGuard = PollerSkel.Decl.channelHandleEventWithGuard ∧
+    Gen.PollerSkel.loopIteration = PollerSkel.Decl.loopIteration ∧
+    Gen.PollerSkel.loopUpdateChannel = PollerSkel.Decl.loopUpdateChannel ∧
+    Gen.PollerSkel.loopRemoveChannel = PollerSkel.Decl.loopRemoveChannel ∧
+    Gen.PollerSkel.loopHasChannel = PollerSkel.Decl.loopHasChannel :=
+  PollerSkel.skeletons_agree
 
 /-! ## the hypotheses are satisfiable, the conclusions not vacuous -/
 
